@@ -106,3 +106,40 @@ def check_setter_stores(model, rep, rule, attrs):
                     bad = f'the value stored is `{sx.show(own[0][3])[:60]}`, not the argument'
             rep.decide(not bad, rule, cons, bad, loc=st.loc)
     rep.inspect(n)
+
+
+def check_trig(model, rep, rule):
+    """the formulas take sines, cosines and tangents through AngularPosition/Angle.sin|cos|tan, which the
+    evaluator models natively - so the methods themselves are decided here: with the default frequency each returns
+    the named function of the SI magnitude (radians), whatever unit the angle is expressed in"""
+    import ast as _ast
+    from .algebra import Rat
+    from .sx import SX, Q, U, N, Dyn, Outcome, CannotDecide
+    from . import sx as sxm
+    sx = SX(model)
+    sxm.POSITIVE_ATOMS.clear()
+    S = Rat.atom('S')
+    for cls in ('AngularPosition', 'Angle'):
+        for fn in ('sin', 'cos', 'tan'):
+            m = model.find_member(cls, fn)
+            cons = f'{cls}.{fn}'
+            if m is None:
+                rep.violation(rule, cons, 'method missing')
+                continue
+            try:
+                args = {}
+                pos = m.node.args.args[1:]
+                defaults = m.node.args.defaults
+                frame = {'module': m.module, 'cls': cls, 'fn': m.node, 'depth': 0}
+                for a, d in zip(pos[len(pos) - len(defaults):], defaults):
+                    args[a.arg] = sx.eval1(d, sxm.State(env={}), frame)
+                outs = sx.run(m.node, m.module, m.cls, Q(cls, S, U(sym='u')), args)
+            except CannotDecide as e:
+                rep.cannot(rule, cons, str(e), m.loc)
+                continue
+            rets = [o for o in outs if o.kind == 'return']
+            want = sx.ctx.call(fn, S)
+            ok = len(rets) == 1 and len(outs) == 1 and isinstance(rets[0].value, (N, Dyn)) and sx.ctx.eq(rets[0].value.term, want)
+            rep.decide(ok, rule, cons, f'with the default frequency the method returns `{sx.show(rets[0].value)[:80] if rets else None}`, '
+                       f'specified {fn}(angle in radians)', loc=m.loc)
+            rep.inspect()
